@@ -45,7 +45,10 @@ MANIFEST = {
             'with RestrictedDTML under a recording policy: refused data '
             'must not influence output, exception class or order; visible '
             'data must have passed policy.validate; _private data must '
-            'never appear, guarded or not.',
+            'never appear, guarded or not.  Attribute channels are run a '
+            'second time under a template class that supplies '
+            'guarded_getattr only; record objects (attributes and mapping '
+            'protocol) are client objects like any other.',
     'note': 'Trusted: the AccessControl guard functions end in '
             'policy.validate (checked by the self-test); the channel table '
             'is the bound on "every access channel" -- a channel that is '
